@@ -1,5 +1,5 @@
 """Property -> rule families.  Each entry is a list of callables taking the Run context."""
-import rf_alloc, rf_state, rf_tables, rf_sig, rf_union, rf_flow, rf_vocab, rf_mir2c, rf_code, rf_bounds, rf_fold, rf_proto, rf_dispatch
+import rf_alloc, rf_state, rf_tables, rf_sig, rf_union, rf_flow, rf_vocab, rf_mir2c, rf_code, rf_bounds, rf_fold, rf_proto, rf_dispatch, rf_keys
 from lib import facts as F
 
 
@@ -31,6 +31,11 @@ def c18_rf5(run):
 def c15_rf17(run):
     rf_tables.rf17(run)
     run.min_instances('RF17', 500)
+
+
+def c15_rf19(run):
+    rf_tables.rf19_mem(run)
+    run.min_instances('RF19', 150)
 
 
 def c15_rf16h(run):
@@ -218,6 +223,11 @@ def c20_rf7h(run):
     run.min_instances('RF7h', 150)
 
 
+def c05_rf12(run):
+    rf_keys.rf12(run)
+    run.min_instances('RF12', 25)
+
+
 PLAN = {
     'C13': [c13_rf16],
     'C14': [c14_rf16f],
@@ -229,7 +239,7 @@ PLAN = {
     'C11': [c11_rf6, c11_vocab, c11_rf14],
     'C02': [c02_rf8, c02_rf23, c02_rf7a],
     'C20': [c20_rf8, c20_rf6, c20_rf21, c20_rf7h],
-    'C15': [c15_rf17, c15_rf16h, c15_rf7b],
+    'C15': [c15_rf17, c15_rf16h, c15_rf7b, c15_rf19],
     'C18': [c18_rf5],
     'C17': [c17_rf1, c17_rf2, c17_rf3, c17_rf4],
 }
